@@ -204,8 +204,9 @@ class CFG:
         of the enclosing try statements reachable (up to the first catch-all).  Implicit exceptions
         are modelled no further than that: they never reach raise_exit."""
         node = self.nodes[nid]
-        if not any(isinstance(x, ast.Call) for e in node.exprs for x in ast.walk(e)):
-            return
+        if not any(isinstance(x, ast.Call) or (isinstance(x, ast.Subscript) and isinstance(x.ctx, ast.Load))
+                   for e in node.exprs for x in ast.walk(e)):
+            return   # (an item lookup may raise KeyError / IndexError just as a call may raise anything)
         for fr in reversed(ctx.frames):
             if isinstance(fr, _TryFrame):
                 stop = False
